@@ -155,6 +155,7 @@ MemberOK(f) == WellFormedCore(Run(f.c, f.l, f.h))
 GTiny  == { <<1, 1>>, <<2, 1>>, <<1, 2>>, <<2, 2>>, <<3, 2>>, <<2, 3>> }
 GSmall == { <<3, 3>>, <<4, 3>> }
 GMore  == { <<5, 4>>, <<8, 5>> }
+GOne   == { <<3, 2>>, <<2, 3>> }
 GQuick == GTiny \cup GSmall
 GThorough == GTiny \cup GSmall \cup GMore
 GRows  == { <<3, 1>>, <<3, 2>>, <<3, 3>>, <<3, 4>>, <<2, 5>> }
